@@ -43,16 +43,15 @@ class Mutex {
     //! 请求资源，注意：只能是协程调用
     //! 不建议直接使用，优先使用 Mutex::Locker 替代
     bool lock() {
-        if (!hold_token_.isNull()) {      //! 如果没有资源，则等待
-            if (hold_token_.equal(sch_.getToken())) //! 如果就是自己占用的，就直接返回
-                return true;
+        if (!hold_token_.isNull() && hold_token_.equal(sch_.getToken())) //! 如果就是自己占用的，就直接返回
+            return true;
 
+        //! 如果没有资源，则等待。被唤醒后若锁又被别人抢走，要重新排队
+        while (!hold_token_.isNull()) {
             wait_tokens_.push(sch_.getToken());
-            do {
-                sch_.wait();
-                if (sch_.isCanceled())
-                    return false;
-            } while (!hold_token_.isNull());
+            sch_.wait();
+            if (sch_.isCanceled())
+                return false;
         }
 
         hold_token_ = sch_.getToken();
@@ -67,10 +66,12 @@ class Mutex {
 
         hold_token_.reset();
 
-        if (!wait_tokens_.empty()) {
+        //! wake one waiter (skipping waiters that are gone or already woken)
+        while (!wait_tokens_.empty()) {
             auto t = wait_tokens_.front();
             wait_tokens_.pop();
-            sch_.resume(t);
+            if (sch_.resume(t))
+                break;
         }
     }
 
